@@ -50,7 +50,7 @@ INFO = {
         'seeded schedules of writers / readers / one packer at seam-call granularity, acked-history oracle; a run is '
         'non-trivial if some reader seam call fell between a packer COMMIT and the end of its unlink loop or a reader '
         'took the re-query fallback; distinct = distinct schedule digest',
-        4000,
+        3000,
     ),
     'C05': _p(
         'fault_enumeration',
@@ -58,13 +58,13 @@ INFO = {
         'boundaries before mutating seam calls of the victim (all in thorough, seeded sample in quick); evaluations = '
         'images verified; non-trivial = boundary strictly inside the victim; distinct = distinct (victim kind, seam call '
         'kind at the boundary, image state digest)',
-        1200,
+        1000,
     ),
     'C06': _p(
         'fault_enumeration',
         'as C05 with default fsync settings and the adversarial power-loss image (every regular data file cut back to '
         'the bytes its inode held at its last fsync); evaluations = images verified',
-        1200,
+        1000,
     ),
     'C07': _p(
         'exploration',
